@@ -310,7 +310,8 @@ pub fn load_findings(root: &Path) -> Vec<Finding> {
             continue;
         }
         if let Some(rest) = l.strip_prefix("open:") {
-            let (head, what) = match rest.split_once("::") {
+            // the separator is " :: " with spaces: signatures may contain Rust paths (`a::b`)
+            let (head, what) = match rest.split_once(" :: ") {
                 Some((h, w)) => (h.trim(), w.trim()),
                 None => (rest.trim(), ""),
             };
